@@ -361,6 +361,9 @@ class Program:
                 elif i.op == 'phi':
                     rs = {root_param(f, x, depth + 1, seen) for x, _ in i.d['incoming']} - {None}
                     return rs.pop() if len(rs) == 1 else None
+                elif i.op == 'load':
+                    v = local_forward(f, i)        # (a parameter parked in a local context struct)
+                    if v is None: return None
                 else: return None
                 depth += 1
             return None
@@ -380,7 +383,21 @@ class Program:
                     if t1[0] != 'direct' or t1[1] not in lazy: continue
                     r1 = lazy[t1[1]]
                     if r1.args['out'] >= len(c1.ops): continue
-                    B = alloca_of(f, c1.ops[r1.args['out']])
+                    def objs_of(f, v):
+                        # the local buffer(s) a pointer is the base address of: the alloca itself, or - for a pointer parked in a context struct that a caller filled - the
+                        # allocas points-to gives for a value that can only be an object base
+                        al = alloca_of(f, v)
+                        if al is not None: return frozenset([('alloca', f.name, al.id)])
+                        r_, o_ = strip_casts(f, v)
+                        if o_ != 0 or r_['k'] != 'i' or f.insts[r_['id']].op != 'load': return None
+                        pt_ = self.points_to()
+                        if not pt_.is_base(f, r_): return None
+                        os_ = frozenset(pt_.of(f, r_))
+                        return os_ if os_ and all(o[0] == 'alloca' for o in os_) else None
+                    def is_word_array(o):
+                        a_ = self.defined[o[1]].insts[o[2]]
+                        return a_.d.get('alloc_kind') == 'array' and '*]' in (a_.d.get('alloc_ty') or '')
+                    B = objs_of(f, c1.ops[r1.args['out']])
                     if B is None: continue
                     for c2, t2 in calls:
                         if c2 is c1 or t2[0] != 'direct' or t2[1] not in self.defined or t2[1] in lazy: continue
@@ -388,14 +405,14 @@ class Program:
                         g = self.defined[t2[1]]
                         bi = wi = None
                         for n, a in enumerate(c2.ops[:len(g.params)]):
-                            al = alloca_of(f, a)
+                            al = objs_of(f, a) if a['k'] in ('i', 'a') else None
                             if al is None: continue
-                            if al is B: bi = n
-                            elif al.d.get('alloc_kind') == 'array' and '*]' in (al.d.get('alloc_ty') or ''): wi = n
+                            if al == B: bi = n
+                            elif all(is_word_array(o) for o in al): wi = n
                         if bi is not None and wi is not None:
-                            W = alloca_of(f, c2.ops[wi])
+                            W = objs_of(f, c2.ops[wi])
                             others = [c3 for c3, t3 in calls if c3 is not c2 and c3 is not c1 and t3[0] in ('direct', 'indirect') and not (t3[0] == 'direct' and t3[1].startswith('llvm.'))
-                                      and any(alloca_of(f, a_) in (B, W) for a_ in c3.ops if a_['k'] in ('i', 'a'))]
+                                      and any(objs_of(f, a_) in (B, W) for a_ in c3.ops if a_['k'] in ('i', 'a'))]
                             if not all(f.inst_dominates(c2, c3) for c3 in others): continue      # (a clean-up helper that also takes both is not the tokeniser)
                             r = seen.get(g.name)
                             if r is None:
@@ -422,46 +439,157 @@ class Program:
             if out: return out
         return [(f, base, off)]
 
-    def writes_through(self, fname, k):
-        """may function fname store through (a cast / constant or variable offset of) its pointer parameter k - itself, or by handing it on? (stores through pointers
-        LOADED from the pointee do not count: they change what a context struct points to, not the struct)"""
+    def sym(self, f, v, bind=None, depth=0):
+        """small symbolic evaluator for address / size expressions across helper boundaries: ('int', c) | ('ptr', root, byte offset) | None (unknown), where root is
+        ('alloca', fn, id) | ('global', name) | ('val', fn, key) (an opaque pointer value such as a public parameter). Parameters are bound by `bind` (callee evaluation) or
+        resolved at every direct call site (all sites must agree); loads from a member of a local read the one value stored there in the owning function; calls to internal
+        functions evaluate the callee's return expression."""
+        if depth > 24: return None
+        k = v['k']
+        if k == 'c': return ('int', v['v'])
+        if k == 'null': return ('int', 0)
+        if k == 'g': return ('ptr', ('global', v['name']), v.get('off', 0))
+        if k == 'a':
+            if bind is not None:
+                return bind[v['n']] if v['n'] < len(bind) else None
+            vals = []
+            for g in self.defined.values():
+                for ci, ct in self.calls(g):
+                    if ct == ('direct', f.name) and v['n'] < len(ci.ops):
+                        vals.append(self.sym(g, ci.ops[v['n']], None, depth + 1))
+            if not vals: return ('ptr', ('val', f.name, ('a', v['n'])), 0) if f.params[v['n']]['ty'].endswith('*') else None
+            if any(x is None for x in vals) or any(x != vals[0] for x in vals):
+                # different call sites pass different things: opaque, but the same opaque thing for every use inside f
+                return ('ptr', ('val', f.name, ('a', v['n'])), 0) if f.params[v['n']]['ty'].endswith('*') else None
+            return vals[0]
+        if k != 'i': return None
+        i = f.insts.get(v['id'])
+        if i is None: return None
+        op = i.op
+        S = lambda x: self.sym(f, x, bind, depth + 1)
+        if op == 'alloca': return ('ptr', ('alloca', f.name, i.id), 0)
+        if op in ('bitcast', 'ptrtoint', 'inttoptr', 'zext', 'sext', 'trunc', 'addrspacecast'):
+            a = S(i.ops[0])
+            if a and a[0] == 'int' and op == 'trunc': return ('int', a[1] & ((1 << i.d['bits']) - 1))
+            return a
+        if op == 'getelementptr':
+            a = S(i.ops[0])
+            if not a or a[0] != 'ptr': return None
+            off = a[2] + i.d['const_off']
+            for st_ in i.d['var_steps']:
+                x = S(st_['idx'])
+                if not x or x[0] != 'int': return None
+                xv = x[1] - (1 << 64) if x[1] >> 63 else x[1]
+                off += xv * st_['stride']
+            return ('ptr', a[1], off)
+        if op in ('add', 'sub', 'mul', 'sdiv', 'udiv', 'ashr', 'lshr', 'shl', 'and'):
+            a, b = S(i.ops[0]), S(i.ops[1])
+            if not a or not b: return None
+            if op == 'sub' and a[0] == 'ptr' and b[0] == 'ptr':
+                return ('int', (a[2] - b[2]) & ((1 << 64) - 1)) if a[1] == b[1] else None
+            if a[0] == 'ptr' and b[0] == 'int' and op in ('add', 'sub'):
+                bv = b[1] - (1 << 64) if b[1] >> 63 else b[1]
+                return ('ptr', a[1], a[2] + (bv if op == 'add' else -bv))
+            if a[0] != 'int' or b[0] != 'int': return None
+            w = i.d.get('bits') or 64; M = (1 << w) - 1
+            sv = lambda x: x - (1 << w) if (x >> (w - 1)) & 1 else x
+            x, y = a[1] & M, b[1] & M
+            try:
+                r = {'add': x + y, 'sub': x - y, 'mul': x * y, 'udiv': x // y if y else None, 'sdiv': int(sv(x) / sv(y)) if y else None, 'ashr': sv(x) >> (y & 63), 'lshr': x >> (y & 63),
+                     'shl': x << (y & 63), 'and': x & y}[op]
+            except Exception: return None
+            return None if r is None else ('int', r & M)
+        if op == 'phi':
+            vals = [S(x) for x, _ in i.d['incoming']]
+            return vals[0] if vals and all(x is not None and x == vals[0] for x in vals) else None
+        if op == 'load':
+            a = S(i.ops[0])
+            if not a or a[0] != 'ptr': return None
+            if a[1][0] == 'alloca':
+                F = self.defined[a[1][1]]
+                stored = []
+                for j in F.all_insts():
+                    if j.op == 'store':
+                        t = self.sym(F, j.ops[1], None, depth + 1)
+                        if t and t[0] == 'ptr' and t[1] == a[1]:
+                            if t[2] == a[2] and (j.d.get('size') or 8) == (i.d.get('size') or 8): stored.append(j.ops[0])
+                        elif t is None:
+                            r_, _ = strip_casts(F, j.ops[1])
+                            if r_ == {'k': 'i', 'id': a[1][2]}: return None        # a store into the local at an offset the evaluator cannot determine
+                stored = [x for x in stored if x['k'] not in ('undef',)]
+                if len(stored) != 1: return None
+                return self.sym(F, stored[0], None if F is not f else bind, depth + 1)
+            return ('ptr', ('val', f.name, ('load', a[1], a[2])), 0) if (i.d.get('ty') or '').endswith('*') else None
+        if op == 'call' and not self.is_dbg(i):
+            t = self.call_target(i)
+            if t[0] == 'direct' and t[1] in self.defined:
+                g = self.defined[t[1]]
+                b2 = [S(x) for x in i.ops[:len(g.params)]]
+                rets = [j for j in g.all_insts() if j.op == 'ret' and j.ops]
+                vals = [self.sym(g, j.ops[0], b2, depth + 1) for j in rets]
+                return vals[0] if vals and all(x is not None and x == vals[0] for x in vals) else None
+            return None
+        return None
+
+    def written_offsets(self, fname, k):
+        """byte ranges of the object behind pointer parameter k that function fname may store to - itself or by handing the pointer on: set of (offset, size), or {'*'} when
+        unknown (stores through pointers LOADED from the pointee do not count: they change what a context struct points to, not the struct)"""
         if getattr(self, '_wt', None) is None:
-            wt = set(); changed = True
-            def root_param(f, v):
-                r, _ = strip_casts(f, v)
-                seen = set()
-                while r['k'] == 'i' and r['id'] not in seen:
-                    seen.add(r['id']); i = f.insts[r['id']]
-                    if i.op in ('phi', 'select'): return None      # (conservative below)
-                    break
-                return r['n'] if r['k'] == 'a' else None
+            if getattr(self, '_wt_building', False): return {'*'}        # (asked while being computed: conservative)
+            self._wt_building = True
+            wt = collections.defaultdict(set); changed = True
+            def root_param(f, v, seen=None):
+                # (parameter index, constant offset or None) the address is derived from; phis / selects of a parameter: offset unknown
+                seen = seen if seen is not None else set()
+                r, o = strip_casts(f, v)
+                if r['k'] == 'a': return r['n'], o
+                if r['k'] == 'i' and f.insts[r['id']].op in ('phi', 'select') and r['id'] not in seen:
+                    seen.add(r['id'])
+                    i = f.insts[r['id']]
+                    for x in ([x for x, _ in i.d['incoming']] if i.op == 'phi' else i.ops[1:]):
+                        q = root_param(f, x, seen)
+                        if q is not None: return q[0], None
+                return None
+            def add(key, item):
+                if item not in wt[key] and '*' not in wt[key]:
+                    if item == '*': wt[key] = {'*'}
+                    else: wt[key].add(item)
+                    return True
+                return False
             while changed:
                 changed = False
                 for f in self.defined.values():
                     for i in f.all_insts():
-                        hit = []
-                        if i.op == 'store':
-                            n = root_param(f, i.ops[1])
-                            if n is not None: hit.append(n)
-                        elif i.op in ('phi', 'select'):
-                            for v in ([v for v, _ in i.d['incoming']] if i.op == 'phi' else i.ops[1:]):
-                                n = root_param(f, v)
-                                if n is not None: hit.append(n)      # a parameter merged with other pointers: assume written
+                        if i.op in ('store', 'cmpxchg', 'atomicrmw'):
+                            q = root_param(f, i.ops[1] if i.op == 'store' else i.ops[0])
+                            if q is not None and add((f.name, q[0]), '*' if q[1] is None else (q[1], i.d.get('size') or 8)): changed = True
                         elif i.op == 'call' and not self.is_dbg(i):
                             t = self.call_target(i)
                             for kk, a in enumerate(i.ops):
-                                n = root_param(f, a)
-                                if n is None: continue
+                                if a['k'] not in ('i', 'a'): continue
+                                q = root_param(f, a)
+                                if q is None: continue
                                 if t[0] == 'direct' and t[1] in self.defined:
-                                    if (t[1], kk) in wt: hit.append(n)
+                                    for item in list(wt.get((t[1], kk), ())):
+                                        it2 = '*' if (item == '*' or q[1] is None) else (item[0] + q[1], item[1])
+                                        if add((f.name, q[0]), it2): changed = True
                                 elif t[0] == 'direct' and (t[1].startswith('llvm.memcpy') or t[1].startswith('llvm.memmove') or t[1].startswith('llvm.memset')):
-                                    if kk == 0: hit.append(n)
+                                    if kk == 0:
+                                        n_ = const_of(i.ops[2])
+                                        if add((f.name, q[0]), '*' if (q[1] is None or n_ is None) else (q[1], n_)): changed = True
                                 elif t[0] == 'direct' and t[1].startswith('llvm.'): pass
-                                else: hit.append(n)
-                        for n in hit:
-                            if (f.name, n) not in wt: wt.add((f.name, n)); changed = True
-            self._wt = wt
-        return (fname, k) in self._wt
+                                else:
+                                    if add((f.name, q[0]), '*'): changed = True
+            self._wt = wt; self._wt_building = False
+            for f in self.defined.values(): f.__dict__.pop('_fwd', None)       # (answers given conservatively while building are recomputed)
+        return self._wt.get((fname, k), set())
+
+    def writes_through(self, fname, k, off=None, size=None):
+        """may fname store into [off, off+size) of the object behind its pointer parameter k (any byte when off is None)?"""
+        w = self.written_offsets(fname, k)
+        if not w: return False
+        if '*' in w or off is None: return True
+        return any(o < off + size and off < o + sz for (o, sz) in w)
 
     def role_fn(self, name, kind):
         """the Role of function `name` for this kind, or None"""
@@ -844,8 +972,9 @@ class PointsTo:
 
 # ---------- small helpers used by several rules
 
-def strip_casts(fn, v):
-    """follow bitcasts / zero-offset GEPs back to the underlying SSA value; returns (valref, const_offset or None)"""
+def strip_casts(fn, v, _depth=0):
+    """follow bitcasts / GEPs back to the underlying SSA value; returns (valref, const_offset or None). A pointer re-loaded from a member of a local (a context struct
+    field that is assigned once) stands for the value stored there (see local_forward)"""
     off = 0
     while v['k'] == 'i':
         i = fn.insts.get(v['id'])
@@ -859,9 +988,53 @@ def strip_casts(fn, v):
             else:
                 off = None if off is None else off + i.d['const_off']
                 v = i.ops[0]
+        elif i.op == 'load' and _depth < 6:
+            w = local_forward(fn, i, _depth)
+            if w is None: break
+            v = w
         else:
             break
     return v, off
+
+
+def local_forward(fn, ld, _depth=0):
+    """the one value ever stored in the member of a local that `ld` reads - flow-insensitive store-to-load forwarding, valid when the member (alloca + constant offset) has
+    exactly one non-constant store in the function, nothing stores into the local at an unknown offset, and no callee that receives the local's address writes through it.
+    Returns the stored valref, or None"""
+    cache = fn.__dict__.setdefault('_fwd', {})
+    if ld.id in cache: return cache[ld.id]
+    cache[ld.id] = None       # (recursion guard)
+    if not (ld.d.get('ty') or '').endswith('*'): return None
+    r, o = strip_casts(fn, ld.ops[0], _depth + 1)
+    if o is None or r['k'] != 'i': return None
+    a = fn.insts.get(r['id'])
+    if a is None or a.op != 'alloca': return None
+    vals = []
+    P = fn.prog
+    for i in fn.all_insts():
+        if i.op == 'store':
+            r2, o2 = strip_casts(fn, i.ops[1], _depth + 1)
+            if r2 != r: continue
+            if o2 is None: return None
+            sz = i.d.get('size') or 8
+            if o2 == o and sz == (ld.d.get('size') or 8):
+                if i.ops[0]['k'] in ('c', 'null', 'undef'): continue        # (zero initialisation before the real assignment)
+                if i.ops[0] not in vals: vals.append(i.ops[0])
+            elif o2 < o + (ld.d.get('size') or 8) and o < o2 + sz: return None       # overlapping store of another shape
+        elif i.op == 'call' and not P.is_dbg(i):
+            t = P.call_target(i)
+            for k, x in enumerate(i.ops):
+                if x['k'] not in ('i',): continue
+                r2, o2 = strip_casts(fn, x, _depth + 1)
+                if r2 != r: continue
+                if t[0] == 'direct' and t[1].startswith('llvm.memset') and k == 0 and const_of(i.ops[1]) == 0: continue       # (= {0})
+                if t[0] == 'direct' and (t[1].startswith('llvm.lifetime') or t[1].startswith('llvm.dbg')): continue
+                if t[0] == 'direct' and t[1] in P.defined and o2 is not None and not P.writes_through(t[1], k, o - o2, ld.d.get('size') or 8): continue
+                if t[0] == 'dep' and t[1] == 'memzero': continue        # (the wipe at the end of the object's life)
+                return None
+    if len(vals) != 1: return None
+    cache[ld.id] = vals[0]
+    return vals[0]
 
 
 def const_of(v):
